@@ -331,16 +331,17 @@ Qed.
 Lemma strip_ws_app a b : strip_ws (a ++ b) = strip_ws a ++ strip_ws b.
 Proof. apply filter_app. Qed.
 
-Theorem parse_print n p : (1 <= n)%nat -> wfp n p -> (0 <= pq p < 4)%Z ->
+Theorem parse_print n p : wfp n p -> (0 <= pq p < 4)%Z ->
   pparse (pprint p) = Some p.
 Proof.
-  intros Hn [Hz Hx] Hq. destruct p as [zs xs q]. cbn [pz px pq] in *.
-  destruct zs as [|z zs]; [cbn in Hz; lia|]. destruct xs as [|x xs]; [cbn in Hx; lia|].
-  assert (Hl : length zs = length xs) by (cbn in Hz, Hx; lia).
+  intros [Hz Hx] Hq. destruct p as [zs xs q]. cbn [pz px pq] in *.
+  assert (Hl : length zs = length xs) by congruence.
   unfold pprint, pparse. cbn [pz px pq].
   assert (Q : (q = 0 \/ q = 1 \/ q = 2 \/ q = 3)%Z) by lia.
   rewrite strip_ws_app, strip_ws_letters.
-  cbn [combine map fst snd].
-  destruct Q as [-> | [-> | [-> | ->]]]; cbn [prefix Z.eqb filter app];
-    destruct z, x; cbn; rewrite (parse_letters_print zs xs Hl); reflexivity.
+  destruct zs as [|z zs], xs as [|x xs]; try discriminate.
+  - destruct Q as [-> | [-> | [-> | ->]]]; reflexivity.
+  - cbn in Hl. injection Hl as Hl. cbn [combine map fst snd].
+    destruct Q as [-> | [-> | [-> | ->]]]; cbn [prefix Z.eqb filter app];
+      destruct z, x; cbn; rewrite (parse_letters_print zs xs Hl); reflexivity.
 Qed.
